@@ -190,9 +190,17 @@ def load_cfg(pid):
 def load_known():
     p = os.path.join(ROOT, "known_findings.json")
     try:
-        return json.load(open(p))
+        k = json.load(open(p))
     except FileNotFoundError:
-        return {"findings": [], "fixed": []}
+        k = {"findings": [], "fixed": []}
+    # per-property proposals under development (merged into known_findings.json at integration)
+    for q in glob.glob(os.path.join(ROOT, "manifest.d", "*.findings.json")):
+        try:
+            d = json.load(open(q))
+            k["findings"] += d.get("findings", []) if isinstance(d, dict) else d
+        except Exception:
+            pass
+    return k
 
 
 def run_cases(casefile, timeout):
@@ -253,7 +261,9 @@ def main():
     # ---- 1. regenerate
     gen_info = []
     for g in cfg.get("gen", []):
-        rc, out, wall = sh(g["cmd"], cwd=ROOT, timeout=g.get("timeout", 300), env=goenv())
+        genv = goenv()
+        genv["VERIF_REPO"] = REPO
+        rc, out, wall = sh(g["cmd"], cwd=ROOT, timeout=g.get("timeout", 300), env=genv)
         gen_info.append({"cmd": " ".join(g["cmd"]), "rc": rc, "wall_s": round(wall, 1)})
         if rc != 0:
             note("translator failed: " + out[-800:])
@@ -309,7 +319,15 @@ def main():
     # ---- 3. harness
     hbin = os.path.join(HARNESS, "bin", hname)
     os.makedirs(os.path.dirname(hbin), exist_ok=True)
-    rc, out, wall = sh(["go", "build", "-tags", "verif"] + cfg.get("go_build_flags", []) + ["-o", hbin, "./cmd/" + hname],
+    modflags = []
+    if REPO != "/repo":
+        # scratch worktree of the repository (development / seeded-change runs): alternative go.mod with the replace redirected
+        hbin = os.path.join(work, "bin_" + hname)
+        alt = os.path.join(work, "alt.mod")
+        open(alt, "w").write(open(os.path.join(HARNESS, "go.mod")).read().replace("/repo/utils", REPO + "/utils"))
+        shutil.copy(os.path.join(HARNESS, "go.sum"), os.path.join(work, "alt.sum"))
+        modflags = ["-modfile=" + alt]
+    rc, out, wall = sh(["go", "build", "-tags", "verif"] + modflags + cfg.get("go_build_flags", []) + ["-o", hbin, "./cmd/" + hname],
                        cwd=HARNESS, timeout=900, env=goenv())
     obs = None
     if rc != 0:
@@ -324,7 +342,9 @@ def main():
         if replay:
             cmd += ["-replay", replay]
         to = cfg.get("harness_timeout", {}).get(tier_, 900 if tier_ == "quick" else 3600)
-        rc_, out_, wall_ = sh(cmd, cwd=HARNESS, timeout=to, env=goenv())
+        henv = goenv()
+        henv["VERIF_REPO"] = REPO
+        rc_, out_, wall_ = sh(cmd, cwd=HARNESS, timeout=to, env=henv)
         try:
             o = json.load(open(os.path.join(outdir, "obs.json")))
         except Exception:
